@@ -8,6 +8,7 @@ Every random choice comes from the one `rng` passed in.
 case lines
    sr V P Q [assignment ...]     V main variable index, P Q polyio text, assignment = "1:5,2:-3" (parameter values;
                                  used by the model side for the specialisation claim)
+   srp M V P Q                   the same in a polynomial context over Z_M (M prime)
    disc V P
 A case line may end with the token  #tag  (ignored by both drivers; gives the branch tag for the evidence).
 """
@@ -172,7 +173,7 @@ def generate(rng, tier):
         return "int" if rng.random() < 0.7 else "bigint"
 
     # ---- 1. all ordered degree combinations (equal degrees, gaps >= 2 included), several coefficient kinds
-    reps = 10 if quick else 14
+    reps = 10 if quick else 12
     for m in range(1, D + 1):
         for n in range(1, D + 1):
             for _ in range(reps):
@@ -275,7 +276,7 @@ def generate(rng, tier):
         emit(v, params, P, Q, "spec-" + what, assigns=[rho, rassign(rng, params), rassign(rng, params)], both=(rng.random() < 0.3))
 
     # ---- 5. purely univariate integer pairs with bigger coefficients
-    for _ in range(100 if quick else 280):
+    for _ in range(100 if quick else 200):
         m, n = rng.randint(1, D), rng.randint(1, D)
         if m + n > MAXDIM_BIG:
             continue
@@ -287,6 +288,95 @@ def generate(rng, tier):
             if pdeg(P, 0) + pdeg(Q, 0) > MAXDIM_BIG:
                 continue
         emit(0, [], P, Q, "univariate-big", both=(rng.random() < 0.3))
+
+    # ---- 7. contexts over Z_p: the same API with coefficients in a prime field (exact divisions become multiplications
+    #         by inverses mod p; numeric divisors that are not units over Z are the interesting ones)
+    def pred_mod(a, M):
+        r = {}
+        for k, c in a.items():
+            c %= M
+            if c > M // 2:
+                c -= M
+            if c:
+                r[k] = c
+        return r
+
+    def zp_coef(M):
+        k = rng.random()
+        if k < 0.5:
+            return rng.randint(-min(M, 9), min(M, 9))
+        return rng.randint(-M, M)
+
+    def zp_poly(v, params, deg, M, par, sparse):
+        r = {}
+        for i in range(deg + 1):
+            if i < deg and rng.random() < sparse:
+                continue
+            if par and rng.random() < 0.6:
+                c = {}
+                for _ in range(rng.choice([1, 2, 2])):
+                    k = [0] * NV
+                    for u in params:
+                        k[u] = rng.choice([0, 0, 1, 1, 2])
+                    c = padd(c, {tuple(k): zp_coef(M)})
+                c = {k: x for k, x in c.items() if x}
+            else:
+                c = pconst(zp_coef(M))
+            if i == deg:
+                tries = 0
+                while not pred_mod(c, M) and tries < 20:
+                    c = pconst(zp_coef(M)); tries += 1
+            r = padd(r, pmul(c, pvar(v, i)))
+        return r
+
+    PRIMES = [2, 3, 5, 7, 7, 13, 13, 101, 1000000007, 2**61 - 1]
+    for _ in range(260 if quick else 800):
+        M = rng.choice(PRIMES)
+        v, params = setup()
+        par = rng.random() < 0.45
+        shape = rng.choice(["generic", "generic", "gap", "equal", "common", "jump", "first"])
+        limd = (MAXDIM_PAR - 1 if par else (MAXDIM_BIG - 1 if M > 1000 else (9 if quick else 10)))   # dense operands
+        sparse = rng.choice([0, 0, 0.3, 0.5])
+        if shape == "generic":
+            m, n = rng.randint(1, D), rng.randint(1, D)
+        elif shape == "gap":
+            n = rng.randint(1, D - 2); m = n + rng.randint(2, D - n)
+        elif shape == "equal":
+            m = n = rng.randint(1, D)
+        if shape in ("generic", "gap", "equal"):
+            if m + n > limd:
+                continue
+            P = zp_poly(v, params, m, M, par, sparse); Q = zp_poly(v, params, n, M, par, sparse)
+        elif shape == "common":
+            k = rng.choice([1, 1, 2])
+            m1, n1 = rng.randint(0, 3), rng.randint(0, 3)
+            if m1 + n1 + 2 * k > limd:
+                continue
+            G = zp_poly(v, params, k, M, par, 0)
+            P = pmul(G, zp_poly(v, params, m1, M, par, 0)); Q = pmul(G, zp_poly(v, params, n1, M, par, 0))
+        elif shape == "jump":
+            d2 = rng.choice([0, 0, 1]); jump = rng.choice([2, 3, 3, 4]); d1 = d2 + jump
+            dq = d1 + rng.choice([1, 1, 2]); dp = dq + rng.choice([0, 1, 2])
+            if dp + dq > limd:
+                continue
+            R2 = zp_poly(v, params, d2, M, par, 0); R1 = zp_poly(v, params, d1, M, par and rng.random() < 0.5, 0)
+            A1 = zp_poly(v, params, dq - d1, M, False, 0); A0 = zp_poly(v, params, dp - dq, M, False, 0)
+            Q = padd(pmul(R1, A1), R2); P = padd(pmul(Q, A0), R1)
+        else:
+            dq = rng.randint(2, D); dp = dq + rng.choice([0, 1, 2])
+            if dp + dq > limd:
+                continue
+            Q = zp_poly(v, params, dq, M, par, 0); A0 = zp_poly(v, params, dp - dq, M, False, 0)
+            P = padd(pmul(Q, A0), zp_poly(v, params, rng.randint(0, max(0, dq - 2)), M, par, 0))
+        Pr, Qr = pred_mod(P, M), pred_mod(Q, M)
+        if pdeg(Pr, v) < 1 or pdeg(Qr, v) < 1 or pdeg(Pr, v) + pdeg(Qr, v) > limd:
+            continue
+        if rng.random() < 0.5:
+            P, Q = Pr, Qr            # already reduced text; otherwise the parser reduces
+        if rng.random() < 0.35:
+            P, Q = Q, P
+        mt = str(M) if M < 1000 else "big"
+        cases.append("srp %d %d %s %s #Zp%s-%s%s" % (M, v, ptext(P), ptext(Q), mt, shape, ":par" if par else ":int"))
 
     # ---- 6. discriminant as polyxx computes it
     for _ in range(50 if quick else 200):
@@ -312,6 +402,8 @@ def nontrivial(case):
     t = case.split()
     if t[0] == "disc":
         return "^2" in t[2] or "^3" in t[2] or "^4" in t[2] or "^5" in t[2]
+    if t[0] == "srp":
+        t = t[1:]
     v = t[1]
     return any(("x%s^%d" % (v, e)) in t[2] + " " + t[3] for e in range(2, 12))
 
@@ -320,7 +412,7 @@ RULE = ("seeded structured generator gen/C04.py (corpus first): all ordered degr
         "remainder sequences with degree jumps, planted specialisations, big univariate pairs, discriminants; "
         "distinct = distinct case line; non-trivial = some operand of degree >= 2 in the main variable")
 ASSUMPTIONS = ["operands are non-constant polynomials with the same top variable (documented precondition of the API)",
-               "integer coefficients (ring lp_Z); Z_m contexts are not exercised by C04",
+               "coefficient rings: Z and prime fields Z_p (p in 2,3,5,7,13,101,1000000007,2^61-1); composite moduli are not exercised",
                "reference determinants by Laplace expansion are limited to dimension m+n <= 13 (sparse small integers), 10 (big integers), 9 (parametric)"]
 TRUSTED = ["polyio text I/O (harness/polyio.h, ocaml/io.ml) shared with the other polynomial properties"]
 EXPLANATION = ("three-way comparison per case: libpoly's resultant (fresh/used/aliased outputs), psc list and subresultant list "
